@@ -82,6 +82,30 @@ claim("C12",
       "TLA+ stack-machine specification, TLC-enumerated programs replayed into the code, TLC trace validation in exact fixed-point arithmetic",
       "DESIGN.md section 4 C12")
 
+claim("C06",
+      "Helmert.tla holds the 7-parameter similarity formula (Australian rotation convention, arc-seconds, ppm), its first-order "
+      "covariance propagation J Q J^T and the second-order reversal bound in exact fixed-point arithmetic over the dumped live "
+      "catalogue. Audit_Helmert (TLC) decides the formula-level statements for all 120 shipped sets x 9 points (reversal below "
+      "0.01 mm / 2 mm for AGD sets, bound, reference-epoch reduction). Trace_Helmert (TLC) validates chains of real conform7 "
+      "calls: every shipped set forward then negated on points in all octants up to 5e7 m, random sets in the stated ranges, "
+      "covariance presence table and value (rank-deficient / ill-conditioned PSD inputs, sets with and without uncertainties): "
+      "value within 1 um of the exactly evaluated formula, closure, vcv symmetric / = J Q J^T to 1e-9 / PSD by principal minors.",
+      "Trusted: TLC, BigFix (pi bracketed at 1e-20); alpha's exact decimal encoding of floats. Points and random sets are "
+      "seeded samples; the catalogue is covered completely.",
+      "TLA+ specification with the formula in exact fixed-point arithmetic, TLC audit of the live catalogue, TLC trace validation of real call chains",
+      "DESIGN.md section 4 C06")
+claim("C07",
+      "On top of Helmert.tla and Catalogue!ShiftSet (parameter + rate * days/365.25, exact): Trace_Helmert (TLC) validates "
+      "chains of real conform14 / transform_atrf2014_to_gda2020 / transform_gda2020_to_atrf2014 calls for every dated shipped "
+      "set and random dated sets over epochs 1980..2060 (reference epoch itself, +-1 day, leap days, year starts, epochs before "
+      "the reference epoch): value within 2 um of the formula with exactly advanced parameters, bit-identical to conform7 at "
+      "the reference epoch, ATRF helpers bit-identical to conform14 with the plate-motion set, exactly the identity at "
+      "2020-01-01, set-then-negation at the same epoch within the second-order bound. Audit_Helmert decides the formula-level "
+      "statements on the catalogue.",
+      "Trusted: as C06. The 8-decimal rounding of re-referenced parameters in the code (< 0.3 um at 1e7 m) is inside the stated 2 um.",
+      "TLA+ specification with exact time propagation, TLC audit, TLC trace validation of real call chains",
+      "DESIGN.md section 4 C07")
+
 NOT_YET = "check not built yet in this session (work in progress; see DESIGN.md section 8 for build order)"
 
 
